@@ -46,6 +46,11 @@ def failure_signature(pw, p):
     role = "writer" if p in pw.writers else "reader"
     if res[1] in ("NoSuchFile",) and any(fn.startswith("_copy_") or fn == "_create_pack_from_packs" for fn in fns):
         return "vanished-pack-not-retried:packer-index-read:%s" % res[1]
+    if res[1] == "RuntimeError" and "pack listing changed, retry needed" in str(res[2]):
+        # bzrformats' compiled knit code gives up instead of reloading the pack list and retrying (RetryWithNewPacks is
+        # turned into RuntimeError); the signature names the breezy call that was running
+        vf = [fn for f, fn in tb if f == "vf_repository.py"]
+        return "retry-lost-in-bzrformats:RuntimeError:%s" % (vf[-1] if vf else "?")
     return "process-failed:%s:%s:%s" % (role, res[1], fns[-1] if fns else "?")
 
 
